@@ -73,6 +73,23 @@ def run(tier, seed, out, drv, facts):
         out.case((json.dumps(t), json.dumps(s), json.dumps(x)), x != t and x["t"] != "int", sample={"T": t, "S": s, "x": x, "verdicts": dict(zip(["T", "S"] + FORMS, progcheck.verdicts(got)))})
         for f, v in zip(FORMS, progcheck.verdicts(got)[2:]):
             out.count(f"{f}:{v}")
+    # the names are arbitrary identifiers: the same triples with T / S renamed (underscores, digits, longer names) give the
+    # verdicts of the model, which are those of T / S
+    renames = [("tree_t", "tree_s"), ("_t", "_s"), ("T_1", "T_2"), ("Tree1", "Tree2"), ("__", "_0")]
+
+    def ren(form, a, b):
+        return " ".join({"T": a, "S": b}.get(tok, tok) for tok in form.split())
+
+    for t, s, x in rng.sample(list(itertools.product(trees[:8], repeat=3)), 60 if thorough else 16):
+        for a, b in renames:
+            body = [{"op": "check", "l": {"t": "pytree", "l": INT, "s": a}, "x": t},
+                    {"op": "check", "l": {"t": "pytree", "l": INT, "s": b}, "x": s}]
+            for form in FORMS:
+                body.append({"op": "check", "l": {"t": "pytree", "l": INT, "s": ren(form, a, b)}, "x": x})
+            body.append({"op": "print"})
+            prog = [{"op": "ctx", "body": body, "exit": "ret"}]
+            got, want = progcheck.compare_program(out, drv, facts, prog, "renamed", rng=rng, as_violation=as_violation, shrink=False)
+            out.case(("renamed", a, json.dumps(t), json.dumps(s), json.dumps(x)), True, sample={"names": [a, b], "T": t, "S": s, "x": x, "verdicts": progcheck.verdicts(got)})
     # leaf types whose VALUES are containers or None (tuple[int, int], Optional[int]): the structure of a value as a
     # PyTree of L stops at the leaves of type L, it is not what flattening the raw value gives
     from gen_prog import TUP_II
